@@ -1119,4 +1119,71 @@ theorem runCalls_copies {F : Facts} (hC : F.nestedCopies = true) :
   | c :: cs, store => by
     simp only [runCalls, storeAfter, storeAfterAux_copies hC, runCalls_copies hC cs store, List.map_cons]
 
+
+
+/-! ### constructing Options -/
+
+def BInv (st : BState) (acc : List (List Path)) : Prop :=
+  st.opts.map (pathsOf st) = acc ∧ ∀ h ∈ st.opts, h.arr < st.next
+
+theorem pathsOf_setArr_fresh {st : BState} {cells : List Path} {h : Hdr} (hlt : h.arr < st.next)
+    (opts' : List Hdr) :
+    pathsOf { heap := setArr st.heap st.next cells, next := st.next + 1, opts := opts' } h
+      = pathsOf st h := by
+  simp only [pathsOf, setArr]
+  have : h.arr ≠ st.next := Nat.ne_of_lt hlt
+  simp [this]
+
+theorem bstep_copies_inv (grow : Nat → Nat → Nat) {st : BState} {acc : List (List Path)}
+    (hinv : BInv st acc) (op : BuildOp) : BInv (bstep true grow st op) (specStep acc op) := by
+  obtain ⟨hmap, hlt⟩ := hinv
+  cases op with
+  | base =>
+    simp only [bstep, specStep]
+    refine ⟨?_, ?_⟩
+    · simp only [List.map_append, List.map_cons, List.map_nil]
+      congr 1
+      · rw [← hmap]
+        apply List.map_congr_left
+        intro h hh
+        exact pathsOf_setArr_fresh (hlt h hh) _
+    · intro h hh
+      rcases List.mem_append.mp hh with hh | hh
+      · exact Nat.lt_succ_of_lt (hlt h hh)
+      · simp only [List.mem_singleton] at hh; subst hh; exact Nat.lt_succ_self _
+  | designate src added =>
+    simp only [bstep, ↓reduceIte, specStep]
+    refine ⟨?_, ?_⟩
+    · simp only [List.map_append, List.map_cons, List.map_nil]
+      congr 1
+      · rw [← hmap]
+        apply List.map_congr_left
+        intro h hh
+        exact pathsOf_setArr_fresh (hlt h hh) _
+      · have hsrc : pathsOf st ((st.opts[src]?).getD ⟨st.next, 0, 0⟩) = (acc[src]?).getD [] := by
+          rw [← hmap, List.getElem?_map]
+          cases st.opts[src]? with
+          | none => simp [pathsOf]
+          | some h => simp
+        simp only [pathsOf, setArr, ↓reduceIte, List.cons.injEq, and_true]
+        rw [← hsrc]
+        apply List.take_of_length_le
+        simp only [List.length_append, List.length_take]
+        omega
+    · intro h hh
+      rcases List.mem_append.mp hh with hh | hh
+      · exact Nat.lt_succ_of_lt (hlt h hh)
+      · simp only [List.mem_singleton] at hh; subst hh; exact Nat.lt_succ_self _
+
+theorem foldl_copies_inv (grow : Nat → Nat → Nat) :
+    ∀ (ops : List BuildOp) (st : BState) (acc : List (List Path)), BInv st acc →
+      BInv (ops.foldl (bstep true grow) st) (ops.foldl specStep acc)
+  | [], _, _, h => h
+  | op :: ops, _, _, h => foldl_copies_inv grow ops _ _ (bstep_copies_inv grow h op)
+
+theorem builtPaths_copies (grow : Nat → Nat → Nat) (ops : List BuildOp) :
+    builtPaths true grow ops = specPaths ops := by
+  have : BInv BState.init [] := ⟨rfl, by intro h hh; cases hh⟩
+  exact (foldl_copies_inv grow ops _ _ this).1
+
 end EinoV.C16
